@@ -105,6 +105,22 @@ def paths_are_equal(F):
         out.append(ok("R-SIB", inst, fn.loc(rets[0]["id"]), fn.qn, req, "equality of the two normalised paths (the kernel of a function is an equivalence relation)"))
     else:
         out.append(bad("R-SIB", inst, fn.loc(fn.body), fn.qn, req, "return shape not recognised as equality of the two normalised values"))
+    # the per-argument normalisation may live in a helper both arguments are passed through (by value): judge its body
+    if c0 == c1 and len(c0) == 1 and c0[0][0] == "decl" and c0[0][2] is not None:
+        it = c0[0][2]
+        while it[0] == "ctor" and len(it[2]) == 1:
+            it = it[2][0]
+        if it[0] == "call" and it[3] == (("X",),):
+            hs = [h for h in F.by_qn.get(it[1], []) if h.cfg and len(h.params) == 1 and not h.params[0].get("ref")]
+            if len(hs) == 1:
+                h = hs[0]
+                hp = P(h, 0)
+                hseq = []
+                howner = {hp}
+                for s_, t_ in stmts_mentioning(h, (hp,)):
+                    hseq.append(t_)
+                c0, _r = canon(hseq, hp)
+                fn = h
     # upper-casing is part of the normalisation and the './' rule is present
     up = [t for t in c0 if t[0] == "expr" and t[1][0] == "call" and t[1][1].endswith("ConvertToUpperInPlace")]
     dot = [t for t in c0 if t[0] == "if" and "./" in repr(t)]
